@@ -349,6 +349,13 @@ def binop_values(self, op, a, b):
         except KeyError:
             raise Unsupported(f"binop {k.__name__}") from None
     ta, tb = self.type_of(a), self.type_of(b)
+    # bool & bool, bool | bool, bool ^ bool: logical connectives with a bool result (Python's bool overrides these operators)
+    if ta == "bool" and tb == "bool" and k in (ast.BitAnd, ast.BitOr, ast.BitXor):
+        x, y = self.truth_term(a), self.truth_term(b)
+        x = z3.BoolVal(x) if isinstance(x, bool) else x
+        y = z3.BoolVal(y) if isinstance(y, bool) else y
+        r = z3.And(x, y) if k is ast.BitAnd else z3.Or(x, y) if k is ast.BitOr else z3.Xor(x, y)
+        return self.wrap(z3.simplify(r), "bool")
     # tuples
     if isinstance(a, tuple) and isinstance(b, tuple) and k is ast.Add:
         return a + b
@@ -580,6 +587,8 @@ def _none_any():
 
 def py_eq(self, a, b):
     """Python == as bool / Sym bool."""
+    if type(a).__name__ == "_UndefinedOld" or type(b).__name__ == "_UndefinedOld":
+        return False
     if isinstance(a, NT):
         a = a.items
     if isinstance(b, NT):
